@@ -17,7 +17,7 @@ func init() {
 
 func ruleC18(c *Ctx, r *Report) {
 	an := c.anchors()
-	if !requireAnchors(r, an, "C18-anchor") {
+	if !requireAnchors(r, an, "C18-anchor", "redact") {
 		return
 	}
 	for _, fl := range presenceFlagAtoms {
